@@ -690,6 +690,56 @@ func c05ErrPos(c *Ctx, base string, off int, local map[string]int64) {
 		return
 	}
 	local["errpos.checked"]++
+	// the same text behind a character that is no token of the language (a
+	// byte order mark, zero-width characters, NUL, an undecodable byte): the
+	// string entry point and the reader entry point must report the same
+	// error, and it points either at that character (line 1, char 1) or, when
+	// the parser names our `?`, at the `?`
+	for _, pre := range []string{"\ufeff", "\ufeff\ufeff", "\u200b", "\u2060", "\x00", "\xef\xbb", "\ufffd", "\u00a0"} {
+		t2 := pre + text
+		var e1, e2 error
+		if p, pv, stk := mon.Try(func() {
+			_, e1 = influxql.ParseQuery(t2)
+			_, e2 = influxql.NewParser(strings.NewReader(t2)).ParseQuery()
+		}); p {
+			r.Violation("panic-in-parse", map[string]interface{}{"sub": "errpos", "input": base, "offset": off, "mutated": t2, "why": fmt.Sprint(pv), "stack": stk})
+			return
+		}
+		r.Eval(1)
+		d2 := func(why string) map[string]interface{} {
+			return map[string]interface{}{"sub": "errpos", "input": base, "offset": off, "mutated": t2, "why": why}
+		}
+		if e1 == nil || e2 == nil {
+			r.Violation("illegal-token-accepted", d2("a text that begins with a character outside the language and holds a stray `?` was accepted"))
+			return
+		}
+		if e1.Error() != e2.Error() {
+			r.Violation("error-position", d2(fmt.Sprintf("ParseQuery(text) reports %q, NewParser(reader).ParseQuery() reports %q", e1.Error(), e2.Error())))
+			return
+		}
+		pe, ok := e1.(*influxql.ParseError)
+		if !ok {
+			continue
+		}
+		first, _ := utf8.DecodeRuneInString(pre)
+		switch {
+		case pe.Found == "?":
+			w := posAt(foldText(t2), len(foldText(pre+base[:off]))+1)
+			if pe.Pos != w {
+				r.Violation("error-position", d2(fmt.Sprintf("error %q reports %v, the offending token is at %v", e1.Error(), pe.Pos, w)))
+				return
+			}
+		case pe.Found == string(first):
+			if pe.Pos != (influxql.Pos{}) {
+				r.Violation("error-position", d2(fmt.Sprintf("error %q reports %v, the offending character is the first of the text", e1.Error(), pe.Pos)))
+				return
+			}
+		default:
+			local["errpos.prefixed.other-error-first"]++
+			continue
+		}
+		local["errpos.prefixed.checked"]++
+	}
 }
 
 // c05ErrPosGen replaces one token of a generated statement by an illegal
